@@ -388,4 +388,23 @@ def runOps (A : Arith α) (h : Heap α) : List (Op α) → Heap α
     else runOps A h ops
 
 end Heap
+/-- Python's clamping of a slice bound for a positive step: into `[0, N]` -/
+def clampUp (N i : Int) : Int := if i < 0 then (if i + N < 0 then 0 else i + N) else (if i > N then N else i)
+/-- … and for a negative step: into `[-1, N - 1]` -/
+def clampDown (N i : Int) : Int := if i < 0 then (if i + N < 0 then -1 else i + N) else (if i ≥ N then N - 1 else i)
+/-- number of terms of a progression of positive stride `s` covering a distance `d`: `⌈d / s⌉`, 0 if `d ≤ 0` -/
+def strideCount (d s : Int) : Nat := if d ≤ 0 then 0 else ((d + s - 1) / s).toNat
+
+/-- `slice(a, b, step).indices(n)` of Python for `step ≠ 0`: (start, count) of the arithmetic progression -/
+def stridedBounds (n : Nat) (a b : Option Int) (step : Int) : Int × Nat :=
+  let N : Int := n
+  if step > 0 then
+    let start := (a.map (clampUp N)).getD 0
+    let stop := (b.map (clampUp N)).getD N
+    (start, strideCount (stop - start) step)
+  else
+    let start := (a.map (clampDown N)).getD (N - 1)
+    let stop := (b.map (clampDown N)).getD (-1)
+    (start, strideCount (start - stop) (-step))
+
 end Solverz
